@@ -1,6 +1,7 @@
 package main
 
 import (
+	"code.gopub.tech/tpl/html"
 	"fmt"
 	"strings"
 )
@@ -173,6 +174,58 @@ func propC04(c *ctx) error {
 		res.S3Checked++
 		if impl.St != "ok" || impl.text() != nt.want {
 			res.violate(rc.toJ(), nt.want, J{"st": impl.St, "out": impl.text(), "err": trunc(impl.Err, 160)}, "nested range / struct items: loop variables not bound as specified")
+		}
+	}
+	// maps whose keys are NOT strings (outside the model's value universe: native oracle only): the first variable is the
+	// key itself, with its Go type — usable in arithmetic and comparisons — and every entry is rendered exactly once
+	{
+		type nk struct {
+			data any
+			tpl  string
+			want []string // the multiset of rendered items (map order is unspecified)
+		}
+		one := "one"
+		cases := []nk{
+			{map[int]string{1: "a", 2: "b", 10: "c"}, `<i :range="k, v : m" :text="${k + 1}${v}${k == 1}${k < 3}">o</i>`, []string{"<i>2atruetrue</i>", "<i>3bfalsetrue</i>", "<i>11cfalsefalse</i>"}},
+			{map[bool]int{true: 1, false: 0}, `<i :range="k, v : m" :text="${!k}${v}">o</i>`, []string{"<i>false1</i>", "<i>true0</i>"}},
+			{map[any]string{1: "int", "1": "str"}, `<i :range="k, v : m" :text="${k}${v}">o</i>`, []string{"<i>1int</i>", "<i>1str</i>"}},
+			{map[int64][]int{7: {1, 2}}, `<i :range="k, v : m"><b :range="_, x : v" :text="${k * x}">o</b></i>`, []string{"<i><b>7</b><b>14</b></i>"}},
+			{map[uint8]*string{200: &one}, `<i :range="k, v : m" :text="${k + 100}${*v}">o</i>`, []string{"<i>300one</i>"}},
+			{map[float64]string{1.5: "f"}, `<i :range="k, v : m" :text="${k * 2 == 3}${v}">o</i>`, []string{"<i>truef</i>"}},
+		}
+		for _, cs := range cases {
+			m := html.NewTplManager()
+			if err := m.Add("t", strings.NewReader(cs.tpl)); err != nil {
+				res.SelfTest = append(res.SelfTest, "C04 map-key template does not load: "+err.Error())
+				continue
+			}
+			t, _ := m.GetTemplate("t")
+			var sb strings.Builder
+			err := func() (err error) {
+				defer func() {
+					if x := recover(); x != nil {
+						err = fmt.Errorf("panic: %v", x)
+					}
+				}()
+				return t.Execute(&sb, map[string]any{"m": cs.data})
+			}()
+			res.eval("mapkeys|"+cs.tpl, true, J{"tpl": cs.tpl, "data": fmt.Sprintf("%#v", cs.data)})
+			res.S3Checked++
+			res.count("non_string_map_keys")
+			got := sb.String()
+			rest := got
+			okAll := err == nil
+			for _, w := range cs.want {
+				if i := strings.Index(rest, w); i >= 0 {
+					rest = rest[:i] + rest[i+len(w):]
+				} else {
+					okAll = false
+				}
+			}
+			if !okAll || rest != "" {
+				res.violate(J{"tpl": cs.tpl, "data": fmt.Sprintf("%#v", cs.data)}, J{"items_in_any_order": cs.want}, J{"out": got, "err": fmt.Sprint(err)},
+					"range over a map with non-string keys: the key variable is not the map key / entries are not rendered once each")
+			}
 		}
 	}
 	// files of ONE manager whose range directives sit at the same line:column but iterate different collections
